@@ -163,6 +163,7 @@ func genC14(r *RNG, idx int, tier string) *Scenario {
 	}
 	sp := &SchedSpec{Sub: r.U64(), Policy: r.PickS([]string{"random", "random", "fifo", "lifo", "starve"}), RecordP: r.PickF([]float64{1, 1.0 / 7, 1.0 / 30})}
 	sp.Concurrency = r.Range(1, min(16, len(sc.Lines)))
+	sp.NoPoolYield = r.Bool(0.15) // coarse stratum: no parking at pooled-file Gets
 	sc.Sched = sp
 	return sc
 }
